@@ -30,10 +30,18 @@ from .. import aio
 
 LEVEL = "model_checking"
 
+
+def _dbg(ctx, msg):
+    if os.environ.get("VERIF_DEBUG"):
+        import sys
+        import time
+        print("[C23 %6.1fs] %s" % (time.time() - ctx.t0, msg), file=sys.stderr, flush=True)
+
 WRITERS_ALL = ["py-gnu", "py-pax", "py-ustar", "gnutar-gnu", "gnutar-posix", "aio"]
 
 # trees: (relpath, kind, size, mode); "" is the root
 TREE_CEX = [("", "dir", 0, 0o755), ("a1", "file", 1, 0o644), ("b513", "file", 513, 0o644)]
+TREE_Q = [("", "dir", 0, 0o755), ("a1", "file", 1, 0o755), ("b2", "file", 2, 0o644)]
 FILE_CEX = [("", "file", 513, 0o644)]
 LONG = "n" * 120 + ".dat"
 TREE_MIX = [("", "dir", 0, 0o755), ("e0", "file", 0, 0o644), ("run.sh", "file", 511, 0o755),
@@ -186,6 +194,9 @@ def judge(ctx, res, fault, cls, model=None, info=None):
         sig = "unpredicted:%s:%s:model-says-%s" % (fault or "intact", bad if only_loss or bad != "loss" else "+".join(sorted(d)), model["outcome"])
     elif bad == "loss" and not only_loss:
         sig = "wrong-tree:%s:%s" % (fault or "intact", "+".join(sorted(d)))
+    elif fault == "trunc" and bad == "loss" and model is not None and "short-read-in-seek" in model["causes"]:
+        # the stream is also truncated, but the members are lost through a short answer inside seek before the end is reached
+        sig = "silent-loss:short-read-in-seek"
     elif fault == "trunc":
         sig = ("truncated:success-reported:%s" if bad == "loss" else "truncated:hang-in-copy:%s") % cls
     elif fault == "corrupt":
@@ -332,16 +343,22 @@ def run(ctx):
     ctx.count("seek_hook_installed", 1 if hooked else 0)
 
     writers = WRITERS_ALL
-    arcs = build_archives(ctx, [("cex", TREE_CEX), ("file513", FILE_CEX), ("mix", TREE_MIX), ("file511", FILE_511),
+    arcs = build_archives(ctx, [("cex", TREE_CEX), ("q", TREE_Q), ("file513", FILE_CEX), ("mix", TREE_MIX), ("file511", FILE_511),
                                 ("big", TREE_BIG)], writers)
     by_tree = {}
     for a in arcs:
         by_tree.setdefault(a.tree_name, []).append(a)
     ctx.count("real_archives", len(arcs))
 
+    _dbg(ctx, "archives built: %d" % len(arcs))
     model_phase(ctx, by_tree)
-    aio.run(fixed_chunks_phase(ctx, by_tree), timeout=None)
+    _dbg(ctx, "model phase done")
+    _, exc = aio.run(fixed_chunks_phase(ctx, by_tree), timeout=None)
+    if exc is not None:
+        raise exc
+    _dbg(ctx, "fixed chunk phase done")
     writer_phase(ctx, by_tree)
+    _dbg(ctx, "writer phase done")
     ctx.assumptions += [
         "the raw stream is any StreamWrapper whose read(k) returns 1..k bytes, or b'' only at the end of the stream",
         "Python's tarfile is the trusted parser that tells where the members of a real archive lie",
@@ -365,8 +382,9 @@ def model_phase(ctx, by_tree):
     tier = ctx.pick("quick", "thorough")
     job("fixed", "MC_TarStream", "MC_TarStream_fixed_%s.cfg" % tier, coverage=True, timeout=3000)
     job("ascoded", "MC_TarStream", "MC_TarStream_ascoded_%s.cfg" % tier, coverage=True, timeout=3000)
-    for c in ("seek", "trunc", "corrupt", "hang"):
-        job("cex_" + c, "MC_TarStream", "MC_TarStream_cex_%s.cfg" % c, timeout=900, count=False)
+    cex_runs = ctx.pick([], ["seek", "trunc", "corrupt", "hang"])
+    for c in cex_runs:
+        job("cex_" + c, "MC_TarStream", "MC_TarStream_cex_%s.cfg" % c, timeout=1800, count=False)
 
     # generation runs: shapes of the real archives
     def shapes_of(trees, B):
@@ -375,35 +393,48 @@ def model_phase(ctx, by_tree):
             for a in by_tree.get(t, []):
                 m.setdefault(a.shape(B).key(), (a.shape(B).tla(), []))[1].append(a)
         return m
-    gens = []      # (name, B, shape map, exhaustive?)
+    gens = []      # (name, B, shape map, exhaustive?, archives per behaviour)
 
-    def gen(name, trees, B, bufs, paths, trunc, corrupt, simulate=None):
+    def log2_paths(key):
+        """Upper estimate of log2(number of chunkings of an intact archive of this shape): a looping read of k units
+        can be answered in 2^(k-1) ways."""
+        B, members, tail = key
+        return sum((B - 1) + (B - 1 + e - 1 if e else 0) + max(n - 1, 0) for e, n in members) + (B - 1)
+
+    def gen(name, trees, B, bufs, paths, trunc, corrupt, simulate=None, per=None, max_log2=12):
         sm = shapes_of(trees, B)
+        if simulate is None:
+            # exhaustive enumeration of chunkings only for shapes where it is feasible (extension headers of PAX
+            # archives multiply the chunkings: those shapes are covered by the simulation runs)
+            for key in [k for k in sm if log2_paths(k) > max_log2]:
+                ctx.count("shape_too_large_for_exhaustive_chunkings:%s" % name, len(sm[key][1]))
+                del sm[key]
         if not sm:
             return
         files = {"TarShapes.tla": shapes_module([v[0] for v in sm.values()]),
                  "G.cfg": cfg_text(B, bufs, paths, trunc, corrupt)}
         kw = {"simulate": simulate} if simulate else {}
         job(name, "Gen_TarStream", "G.cfg", files=files, workers=1, timeout=3000, count=False, **kw)
-        gens.append((name, B, sm, simulate is None))
+        gens.append((name, B, sm, simulate is None, per))
 
     # every chunking of the 3-member archive (block = 3 units: paddings of 2 units can be answered short)
-    gen("all_chunkings_B3", ["cex"], 3, [99], ["B"], False, False)
-    gen("all_chunkings_file", ["file513", "file511"], ctx.pick(3, 4), [99], ["A", "B"], True, True)
+    gen("all_chunkings_tree_B3", ctx.pick(["q"], ["q", "cex"]), 3, [99], ["B"], False, True, per=ctx.pick(2, 3))
+    gen("all_chunkings_file_B3", ctx.pick(["file511"], ["file513", "file511"]), 3, [99], ["A", "B"], True, True,
+        per=ctx.pick(2, 3))
     if not ctx.quick:
-        gen("all_chunkings_B4", ["cex"], 4, [99], ["B"], False, False)
-        gen("all_faults_B3", ["cex"], 3, [99], ["B"], True, True)
-    n_sim = ctx.pick(150, 2500)
-    gen("sim_intact", ["cex", "mix", "file511", "file513"], 4, [4, 99], ["A", "B"], False, True,
-        simulate={"num": n_sim, "depth": 400})
-    gen("sim_trunc", ["cex", "mix", "file511", "file513"], 4, [4, 99], ["A", "B"], True, False,
-        simulate={"num": n_sim, "depth": 400})
+        gen("all_chunkings_tree_B4", ["q"], 4, [99], ["B"], False, False, per=2, max_log2=14)
+        gen("all_faults_tree_B3", ["q"], 3, [3], ["B"], True, False, per=2)
+        for k, (tr, co) in enumerate([(False, True), (True, False)]):
+            gen("sim_%s" % ("trunc" if tr else "intact"), ["cex", "mix", "file511", "file513"], 4, [4, 99], ["A", "B"], tr, co,
+                simulate={"num": 1200, "depth": 500}, per=2)
 
     results = {}
     with concurrent.futures.ThreadPoolExecutor(max_workers=ctx.pick(4, 4)) as ex:
         futs = {name: ex.submit(lambda kw=kw: ctx.tlc(kw.pop("spec"), kw.pop("module"), kw.pop("cfg"), **kw)) for name, kw in jobs.items()}
         for name, f in futs.items():
             results[name] = f.result()
+            _dbg(ctx, "tlc %s: ok=%s err=%s states=%d wall=%.1fs out=%dKB" % (name, results[name].ok, results[name].error,
+                                                                    results[name].distinct, results[name].wall_s, len(results[name].stdout) // 1024))
 
     # ---- the repaired design satisfies everything; the as-coded design keeps what it should
     r = results["fixed"]
@@ -415,28 +446,32 @@ def model_phase(ctx, by_tree):
 
     runner = Runner(ctx)
 
+    shown = set()
+
     async def replays():
         # ---- counterexamples of the as-coded design, replayed on the real code
         for c, tree in (("seek", "cex"), ("trunc", "cex"), ("corrupt", "cex"), ("hang", "file513")):
+            if c not in cex_runs:
+                continue
             r = results["cex_" + c]
             ctx.require(r.error == "invariant" and r.trace, "as-coded model: expected a counterexample for %s, got %s" % (c, r.error))
             beh = trace_to_behaviour(r.trace)
             beh["total"] = shape_total(beh["sh"], B_CEX)
             followed = 0
-            for arc in by_tree.get(tree, []):
-                sh = arc.shape(B_CEX)
-                ctx.require([(m["e"], m["n"]) for m in beh["sh"]["m"]] == [(m["e"], m["n"]) for m in sh.m] and beh["sh"]["tail"] == sh.tail,
-                            "counterexample shape %s is not the shape of %s (%s)" % (beh["sh"], arc.label, sh.tla()))
+            skey = (B_CEX, tuple((m["e"], m["n"]) for m in beh["sh"]["m"]), beh["sh"]["tail"])
+            matching = [a for a in by_tree.get(tree, []) if a.shape(B_CEX).key() == skey]
+            ctx.require(len(matching) > 0, "no real archive has the shape of the counterexample %s: %s" % (c, beh["sh"]))
+            for arc in matching:
                 outcome, model, res = await replay_behaviour(ctx, runner, beh, arc, B_CEX, "cex_" + c)
                 followed += 1 if outcome == model["outcome"] else 0
                 ctx.impl_trace(1)
             ctx.count("counterexample_%s_followed_by_code" % c, followed)
-            ctx.count("counterexample_%s_replays" % c, len(by_tree.get(tree, [])))
+            ctx.count("counterexample_%s_replays" % c, len(matching))
             if c == "seek":
                 ctx.sample({"counterexample": "ExactOrFail (as coded)", "reads": beh["reads"], "model": beh["pc"],
                             "created": beh["created"], "causes": beh["causes"], "real_archives_following": followed})
         # ---- generated behaviours
-        for name, B, sm, exhaustive in gens:
+        for name, B, sm, exhaustive, per in gens:
             g = results[name]
             ctx.require(g.ok, "generation run %s failed: %s\n%s" % (name, g.error, g.stdout[-800:]))
             lines = [x for x in g.printed_json() if isinstance(x, dict) and "reads" in x]
@@ -450,12 +485,28 @@ def model_phase(ctx, by_tree):
                 seen.add(key)
                 skey = (B, tuple((m["e"], m["n"]) for m in beh["sh"]["m"]), beh["sh"]["tail"])
                 ctx.require(skey in sm, "behaviour for an unknown shape %s" % (skey,))
-                for arc in sm[skey][1]:
-                    if beh["path"] == "A" and not arc.single:
-                        continue
-                    await replay_behaviour(ctx, runner, beh, arc, B, name)
+                cands = [a for a in sm[skey][1] if beh["path"] == "B" or a.single]
+                if per is not None and len(cands) > per:
+                    cands = [cands[(len(seen) * per + x) % len(cands)] for x in range(per)]
+                for arc in cands:
+                    outcome, model, res = await replay_behaviour(ctx, runner, beh, arc, B, name)
                     k += 1
+                    if model["outcome"] in ("loss", "hang"):
+                        # a behaviour on which the as-coded model violates ExactOrFail / NoHang, replayed on the real code
+                        kind = "hang" if model["outcome"] == "hang" else ("trunc" if beh["trunc"] < beh["total"] else
+                                                                          "corrupt" if beh["corrupt"] else "seek")
+                        ctx.count("model_violation_replayed:%s" % kind)
+                        if outcome == model["outcome"]:
+                            ctx.count("model_violation_followed_by_code:%s" % kind)
+                            if "cex:" + kind not in shown:
+                                shown.add("cex:" + kind)
+                                ctx.sample({"as-coded model violates": "NoHang" if kind == "hang" else "ExactOrFail", "kind": kind,
+                                            "archive": arc.label, "path": beh["path"], "answers_of_raw_stream": beh["reads"],
+                                            "trunc_unit": beh["trunc"] if kind in ("trunc", "hang") else None,
+                                            "model": {"pc": beh["pc"], "created": beh["created"], "out": beh["out"], "causes": beh["causes"]},
+                                            "real": {"verdict": res["verdict"], "files": {k: v[1] for k, v in res["got"].items()}}})
             ctx.impl_trace(k)
+            _dbg(ctx, "replayed %s: %d behaviours, %d copies" % (name, len(seen), k))
             ctx.count("behaviours:%s" % name, len(seen))
             ctx.count("replays:%s" % name, k)
             if exhaustive:
@@ -479,11 +530,9 @@ async def fixed_chunks_phase(ctx, by_tree):
             paths = ["B", "A"] if arc.single else ["B"]
             for path in paths:
                 for bufsize in ctx.pick([64, 65536], [64, 512, 65536]):
-                    plans = [("fixed:%d" % s, (lambda size, pos, s=s: s)) for s in sizes]
-                    for k in range(ctx.pick(2, 12)):
-                        rng = ctx.rng("chunks/%s/%s/%d/%d" % (arc.label, path, bufsize, k))
-                        hi = rng.choice([16, 600, 4096])
-                        plans.append(("random:%d:max%d" % (k, hi), (lambda size, pos, rng=rng, hi=hi: rng.randint(1, hi))))
+                    names = ["fixed:%d" % s for s in sizes]
+                    names += ["random:%d:max%d" % (k, [16, 600, 4096][k % 3]) for k in range(ctx.pick(3, 12))]
+                    plans = [(pn, make_chunker(ctx, arc, path, bufsize, pn)) for pn in names]
                     if arc.tree_name == "big" and bufsize == 64 and ctx.quick:
                         plans = [p for p in plans if p[0] not in ("fixed:1",)]
                     for pname, ch in plans:
@@ -601,7 +650,47 @@ def check_written(ctx, label, data, src):
 
 
 # ------------------------------------------------------------------------------------------------
+ALL_TREES = [("cex", TREE_CEX), ("q", TREE_Q), ("file513", FILE_CEX), ("mix", TREE_MIX), ("file511", FILE_511), ("big", TREE_BIG)]
+
+
+def make_chunker(ctx, arc, path, bufsize, pname):
+    if pname.startswith("fixed:"):
+        s = int(pname.split(":")[1])
+        return lambda size, pos: s
+    _, k, hi = pname.split(":")
+    hi = int(hi[3:])
+    rng = ctx.rng("chunks/%s/%s/%d/%s" % (arc.label, path, bufsize, k))
+    return lambda size, pos: rng.randint(1, hi)
+
+
 def replay(ctx, data):
-    """Re-run the check (deterministic for a given seed and tier); the stored detail names the case."""
-    ctx.tier = data.get("tier", ctx.tier)
-    run(ctx)
+    """Re-run exactly the stored case (archive, chunk plan / behaviour / truncation point) on the current tree."""
+    d = data.get("detail", {})
+    ctx.seed = data.get("seed", ctx.seed)
+    T.quiet()
+    T.install_seek_hook()
+    if "archive" not in d:
+        ctx.tier = data.get("tier", ctx.tier)
+        return run(ctx)
+    tname = d["archive"].split("/")[0]
+    arcs = build_archives(ctx, [t for t in ALL_TREES if t[0] == tname], WRITERS_ALL)
+    arc = next((a for a in arcs if a.label == d["archive"]), None)
+    ctx.require(arc is not None, "archive %s cannot be rebuilt" % d["archive"])
+    runner = Runner(ctx)
+
+    async def go():
+        if "behaviour" in d:
+            await replay_behaviour(ctx, runner, d["behaviour"], arc, d["B"], "replay")
+        elif "trunc_byte" in d:
+            res = await runner.copy(arc, d["path"], d["trunc_byte"], bufsize=65536)
+            judge(ctx, res, "trunc", arc.shape(4).class_of_byte(d["trunc_byte"]), None, {"case": d.get("case"), "archive": arc.label,
+                                                                                         "trunc_byte": d["trunc_byte"], "path": d["path"]})
+        else:
+            ch = make_chunker(ctx, arc, d["path"], d["bufsize"], d["chunk"])
+            res = await runner.copy(arc, d["path"], len(arc.data), chunker=ch, bufsize=d["bufsize"])
+            judge(ctx, res, None, None, None, {"case": d.get("case"), "archive": arc.label, "chunk": d["chunk"], "bufsize": d["bufsize"],
+                                               "path": d["path"]})
+    _, exc = aio.run(go(), timeout=None)
+    if exc is not None:
+        raise exc
+    print("replayed %s: %s" % (d.get("case"), "violation reproduced" if ctx.violations or ctx.known_hits else "no violation"))
